@@ -27,7 +27,7 @@ func Run(c *fw.Ctx) {
 		a, b, cc, d := e(), e(), e(), e()
 		runMatrix(cs, sq(class2x2(a, b, cc, d), 2, a, b, cc, d), false)
 	})
-	c.Cases("no-return.small-int", c.N(1500, 40000), func(cs *fw.Case) {
+	c.Cases("no-return.small-int", c.N(3000, 50000), func(cs *fw.Case) {
 		cs.SetCPUBudget(30 * time.Second)
 		runMatrix(cs, randomSmallInt(cs.R), cs.R.Chance(0.2))
 	})
